@@ -69,11 +69,13 @@ class RayFan:
 
         for k, field in enumerate(self.fields):
             for wavelength in self.wavelengths:
-                ex = self.data[f'{field}'][f'{wavelength}']['x']
+                # blank blocked rays in copies: the stored results stay as
+                # they were computed
+                ex = np.copy(self.data[f'{field}'][f'{wavelength}']['x'])
                 i_x = self.data[f'{field}'][f'{wavelength}']['intensity_x']
                 ex[i_x == 0] = np.nan
 
-                ey = self.data[f'{field}'][f'{wavelength}']['y']
+                ey = np.copy(self.data[f'{field}'][f'{wavelength}']['y'])
                 i_y = self.data[f'{field}'][f'{wavelength}']['intensity_y']
                 ey[i_y == 0] = np.nan
 
